@@ -21,7 +21,7 @@ var c04Heads = []string{"def", "let", "quote", "quasiquote", "quasiquoteexpand",
 var c04Operands = []string{
 	"nil", "1", `"s"`, ":k", "x", "unbound", "&", "()", "[]", "{}", "(x)", "[x 1]", "[x]", "[1 2]", "[&]", "[& 1]", "[a & b]",
 	"(catch)", "(catch e)", "(catch 1 2)", "(catch (a) 2)", "(catch & 1)", "(finally)", "(unquote)", "(splice-unquote)", "((splice-unquote))",
-	"(fn [a] a)", "(catch e e)", "(unquote 1 2)", "[(splice-unquote)]", "(finally (throw 1))", "(throw 2)",
+	"(fn [a] a)", "(catch e e)", "(unquote 1 2)", "[(splice-unquote)]", "(finally (throw 1))", "(throw 2)", "(() 1)", "(list (list) 1)",
 }
 
 type c04rig struct {
@@ -203,7 +203,7 @@ func init() {
 			},
 		}
 		// one-level nestings: each erroring / odd special form placed in well-formed contexts
-		ctxs := []string{"(do 1 @)", "(let [y @] y)", "(if @ 1 2)", "(list @ 2)", "[@ 1]", "{:a @}", "((fn [a] a) @)", "(try @ (catch e e))", "(try 1 (finally @))", "`(1 ~@ 2)", "(def y @)", "(cond @ 1)", "(-> @ (list))", "(or @ 1)", "(apply list @ [])", "(map (fn [a] @) [1])"}
+		ctxs := []string{"(do (defmacro zm (fn [] @)) (zm))", "(do (defmacro zm (fn [& xs] (quote @))) (zm 1))", "(do 1 @)", "(let [y @] y)", "(if @ 1 2)", "(list @ 2)", "[@ 1]", "{:a @}", "((fn [a] a) @)", "(try @ (catch e e))", "(try 1 (finally @))", "`(1 ~@ 2)", "(def y @)", "(cond @ 1)", "(-> @ (list))", "(or @ 1)", "(apply list @ [])", "(map (fn [a] @) [1])"}
 		nests := &vf.Family{
 			Name:   "nestings",
 			Bounds: fmt.Sprintf("every special-form case of length <=2 placed in each hole of %d well-formed contexts (do/let/if/call/literals/try/finally/quasiquote/def/library macros/apply/map)", len(ctxs)),
